@@ -13,5 +13,15 @@ theorem order_standardRenderer_stop : Tea.Gen.fact_order_standardRenderer_stop =
 theorem calls : Tea.Gen.fact_calls = Tea.Doc.fact_calls := rfl
 theorem locks : Tea.Gen.fact_locks = Tea.Doc.fact_locks := rfl
 theorem body_standardRenderer_halt : Tea.Gen.fact_body_standardRenderer_halt = Tea.Doc.fact_body_standardRenderer_halt := rfl
+theorem body_standardRenderer_render : Tea.Gen.fact_body_standardRenderer_render = Tea.Doc.fact_body_standardRenderer_render := rfl
+theorem body_standardRenderer_flush : Tea.Gen.fact_body_standardRenderer_flush = Tea.Doc.fact_body_standardRenderer_flush := rfl
+theorem body_standardRenderer_write : Tea.Gen.fact_body_standardRenderer_write = Tea.Doc.fact_body_standardRenderer_write := rfl
+theorem body_standardRenderer_repaint : Tea.Gen.fact_body_standardRenderer_repaint = Tea.Doc.fact_body_standardRenderer_repaint := rfl
+theorem body_standardRenderer_handleMessages : Tea.Gen.fact_body_standardRenderer_handleMessages = Tea.Doc.fact_body_standardRenderer_handleMessages := rfl
+theorem body_standardRenderer_stop : Tea.Gen.fact_body_standardRenderer_stop = Tea.Doc.fact_body_standardRenderer_stop := rfl
+theorem body_standardRenderer_kill : Tea.Gen.fact_body_standardRenderer_kill = Tea.Doc.fact_body_standardRenderer_kill := rfl
+theorem body_standardRenderer_clearScreen : Tea.Gen.fact_body_standardRenderer_clearScreen = Tea.Doc.fact_body_standardRenderer_clearScreen := rfl
+theorem body_standardRenderer_enterAltScreen : Tea.Gen.fact_body_standardRenderer_enterAltScreen = Tea.Doc.fact_body_standardRenderer_enterAltScreen := rfl
+theorem body_standardRenderer_exitAltScreen : Tea.Gen.fact_body_standardRenderer_exitAltScreen = Tea.Doc.fact_body_standardRenderer_exitAltScreen := rfl
 
 end Tea.Props.Bridge.C07
